@@ -834,7 +834,7 @@ func judge(trace []string) (v verdict, early bool) {
 		}
 	}
 	type cs struct {
-		acc, cc, eof       int
+		acc, cc, eof, rd   int
 		rqs, we, resp, rme []int
 		marks              []string
 		ws                 int
@@ -843,7 +843,7 @@ func judge(trace []string) (v verdict, early bool) {
 	conns := map[int]*cs{}
 	get := func(k int) *cs {
 		if conns[k] == nil {
-			conns[k] = &cs{acc: -1, cc: -1, eof: -1}
+			conns[k] = &cs{acc: -1, cc: -1, eof: -1, rd: -1}
 		}
 		return conns[k]
 	}
@@ -867,6 +867,7 @@ func judge(trace []string) (v verdict, early bool) {
 		case "acc":
 			c.acc = i
 		case "rd":
+			c.rd = i
 			if posCall < 0 || i < posCall {
 				counted[e.k] = true
 			}
@@ -926,8 +927,9 @@ func judge(trace []string) (v verdict, early bool) {
 			}
 		}
 		// connections accepted after shutdown began are closed without being served
-		if posObs >= 0 && c.acc > posObs && (len(c.rqs) > 0 || c.ws > 0) {
-			v.set("c07:late-conn-served", "connection %d was accepted after shutdown was observable and was served", k)
+		// ("served" starts with the handler reading a request from the connection)
+		if posObs >= 0 && c.acc > posObs && (len(c.rqs) > 0 || c.ws > 0 || c.rd >= 0) {
+			v.set("c07:late-conn-served", "connection %d was accepted after shutdown was observable; its handler went on to serve it (request reads: %v, request modifier starts: %d, responses: %d)", k, c.rd >= 0, len(c.rqs), c.ws)
 		}
 		// Close returns only after every accepted connection has been closed by its handler
 		if posRet >= 0 && c.acc < posRet && (c.cc < 0 || c.cc > posRet) {
